@@ -22,7 +22,7 @@ func (Prop) SelfTest() error              { return sm4ref.SelfTest() }
 func (Prop) Rule() string {
 	return "E2 full products on the real sm4.NewCipher block, every buffer a guard buffer ending at a PROT_NONE page: " +
 		"(a) single block: structured key set x structured block set (zero, ones, the standard key, all 128 single-bit values, 16 positions x {01,80,ff,a5}, " +
-		"then a fixed LCG chain; 515x515 quick, 2051x2051 thorough) x {Encrypt,Decrypt} x {disjoint, dst==src}, oracle = reference SM4 and Decrypt(Encrypt(b))=b; " +
+		"then a fixed LCG chain; 515x515 quick; thorough additionally every value with exactly two bits set: 8643x8643) x {Encrypt,Decrypt} x {disjoint, dst==src}, oracle = reference SM4 and Decrypt(Encrypt(b))=b; " +
 		"(b) batch placement: ECB over n=1..40 blocks with a distinguished block at every position p (820 (n,p) pairs) and an all-distinct filling, x 16 keys x {enc,dec} x {dst==src, disjoint}, " +
 		"through gmsm cipher.NewECB*(block) (fused assembly where the tier has it), through the same constructor over a wrapper hiding every fast-path interface, " +
 		"and through the block's own EncryptBlocks/DecryptBlocks (Concurrency() and 2*Concurrency() blocks) where offered; oracle = reference SM4 per block, bytes outside the slices unchanged (canary + guard page), source unchanged when disjoint; " +
@@ -60,12 +60,31 @@ func value(i int) ([]byte, string) {
 		k := i - 3 - 128
 		b[k/4] = []byte{0x01, 0x80, 0xff, 0xa5}[k%4]
 		return b, "one-byte"
+	case twoBit && i < structured+twoBitCount:
+		// every value with exactly two bits set (thorough tier): C(128,2) = 8128
+		k := i - structured
+		a := 0
+		for k >= 127-a {
+			k -= 127 - a
+			a++
+		}
+		bb := a + 1 + k
+		b[a/8] |= 0x80 >> (a % 8)
+		b[bb/8] |= 0x80 >> (bb % 8)
+		return b, "two-bit"
 	default:
+		if twoBit {
+			i -= twoBitCount
+		}
 		return engine.Pattern(3+i, 16), "chain"
 	}
 }
 
 const structured = 3 + 128 + 64 // 195; + 64 chain values = 259
+const twoBitCount = 128 * 127 / 2
+
+// twoBit is switched on by the thorough tier before any value is drawn.
+var twoBit bool
 
 type plainBlock struct{ b cipher.Block }
 
@@ -82,7 +101,8 @@ type concurrentBlocks interface {
 func (Prop) Run(c *engine.Ctx) {
 	nvals := structured + 64 + 256 // 515
 	if !c.Quick() {
-		nvals = structured + 64 + 1792 // 2051
+		twoBit = true
+		nvals = structured + twoBitCount + 64 + 256 // 8643: every one- and two-bit key x every one- and two-bit block
 	}
 	// (a) single block product
 	const keysPerCase = 8
